@@ -30,6 +30,7 @@ def tail (d : DSt) : String :=
   let mu := if d.s.capMu.isSome then "held" else "free"
   let fid := if !d.cfg.countAfterLock then "C12-count-before-capmu"
     else if !d.cfg.createPreFalse then "C12-create-counts-as-prematched"
+    else if !d.cfg.expiredCountsAll then "C12-patchexpired-counts-expiring-records-only"
     else "C12-patchexpired-releases-capmu-early"
   s!"m={matching d.s} mu={mu}" ++ (if matching d.s > d.s.max then "\t#F:" ++ fid else "")
 
@@ -56,7 +57,7 @@ def xSelect (d : DSt) (b want : Nat) : Option (DSt × String) :=
     match act d1 (.first b) with
     | none => none   -- capMu is held by the other batch
     | some d2 =>
-      let budget := d2.s.max - matching d2.s
+      let budget := d2.s.max - (if d2.cfg.expiredCountsAll then matching d2.s else matchingExp d2.s)
       match act d2 (.second b) with
       | none => none
       | some d3 =>
@@ -147,7 +148,8 @@ def stepLine (d : DSt) (line : String) : DSt × String :=
     match m.toNat? with
     | none => (d, "bad-op")
     | some mx =>
-      let d := { d with s := initP (recs.map (· == "1")) (recs.map (· != "-")) mx, started := true,
+      -- (every record the harness creates at `init` carries an expiry; records created later do not)
+      let d := { d with s := initE (recs.map (· == "1")) (recs.map (· != "-")) (recs.map (· != "-")) mx, started := true,
                         expiredRec := recs.map (· != "-") }
       (d, s!"init {tail d}")
   | "submit" :: bs :: ps =>
@@ -197,10 +199,183 @@ def stepLine (d : DSt) (line : String) : DSt × String :=
       if msg == "skip" then (d', "skip") else (d', s!"step {b} {msg} {tail d'}")
   | _ => (d, "bad-op")
 
+/-! ### Trace inclusion (domain C12s): replay a log of genuinely concurrent Cap-bearing RPCs.
+    Batch lines are logged by the RPC's goroutine while it holds capMu.  A `Delete` takes no cap
+    lock: it is bracketed by `dpre` / `dpost`, and a count in between may or may not have seen it —
+    the model takes its `delete` step at `dpost` at the latest, earlier when a count proves it. -/
+
+structure T12 where
+  cfg : Cfg
+  s : St := init [] 0
+  /-- Deletes in flight whose `delete` step the model has not taken yet -/
+  openDel : List Nat := []
+  /-- Deletes in flight taken early (the key, and that the record matched) -/
+  early : List Nat := []
+  /-- the PatchExpired call that holds capMu and has not reported its selection yet -/
+  xheld : Option Nat := none
+  xdone : List Nat := []
+
+def tfire (t : T12) (a : Act) : Option T12 := (step t.cfg t.s a).map (fun s' => { t with s := s' })
+def tfireAll (t : T12) (as : List Act) : Option T12 := as.foldlM tfire t
+
+def parsePatches (ws : List String) : Option (List (Nat × Bool)) :=
+  ws.mapM fun w => match w.splitOn ":" with
+    | [k, v] => k.toNat?.map (fun k => (k, v == "1"))
+    | _ => none
+
+/-- take `d` of the deletes in flight (matching records) now -/
+def takeEarly (t : T12) : Nat → Option T12
+  | 0 => some t
+  | d + 1 =>
+    match t.openDel.find? (fun k => t.s.recs.getD k false) with
+    | none => none
+    | some k =>
+      match tfire t (.delete k) with
+      | some t' => takeEarly { t' with openDel := t'.openDel.erase k, early := k :: t'.early } d
+      | none => none
+
+def expectResult (t : T12) (x : Batch) (k : Nat) (post : Bool) : String :=
+  let here := t.s.present.getD k false
+  if !here && !x.create then "N" else
+  let pre := if here then t.s.recs.getD k false else (if t.cfg.createPreFalse then false else x.seedMatches)
+  if !pre && post && x.budget == 0 then "X" else if here then "P" else "C"
+
+def tstep (t : T12) (line : String) : T12 × String :=
+  match words line with
+  | ["case", _] => ({ cfg := t.cfg }, line)
+  | "init" :: ms :: toks =>
+    match ms.toNat? with
+    | some m =>
+      -- (the stress harness gives r0..r5 an expiry, r6.. none)
+      let exp := (List.range toks.length).map (fun i => decide (i < 6) && toks.getD i "-" != "-")
+      ({ cfg := t.cfg, s := initE (toks.map (· == "1")) (toks.map (· != "-")) exp m }, "ok")
+    | none => (t, "bad-op")
+  | "submit" :: bs :: rest =>
+    match bs.toNat? with
+    | none => (t, "bad-op")
+    | some b =>
+      let (cr, ps) := match rest with
+        | "c=a" :: ps => (some true, ps)
+        | "c=i" :: ps => (some false, ps)
+        | ps => (none, ps)
+      match parsePatches ps with
+      | none => (t, "bad-op")
+      | some ps =>
+        match tfire t (match cr with | some sm => .submitCreate b ps sm | none => .submit b ps) with
+        | some t' => (t', "ok")
+        | none => (t, "bad submit")
+  | ["lock", bs] =>
+    match bs.toNat? with
+    | none => (t, "bad-op")
+    | some b =>
+      if t.xheld.isSome then (t, s!"bad lock: batch {b} holds capMu while PatchExpired call {t.xheld.getD 0} holds it") else
+      match tfire t (.first b) with
+      | some t' => if t'.s.capMu == some b then (t', "ok") else (t', s!"bad lock: the model counts before it locks (countAfterLock=no)")
+      | none => (t, s!"bad lock: batch {b} holds capMu while batch {(t.s.capMu.getD 0)} holds it in the model")
+  | ["count", bs, cs] =>
+    match bs.toNat?, cs.toNat? with
+    | some b, some c =>
+      let m := matching t.s
+      if c > m then (t, s!"bad count: {c} records counted, the model has {m} matching") else
+      match takeEarly t (m - c) with
+      | none => (t, s!"bad count: {c} records counted, the model has {m} matching and only {(t.openDel.filter (fun k => t.s.recs.getD k false)).length} of them are being deleted")
+      | some t1 =>
+        match tfire t1 (.second b) with
+        | some t2 => if (t2.s.batch b).counted == c then (t2, "ok") else (t2, "bad count")
+        | none => (t, "bad count: not a step")
+    | _, _ => (t, "bad-op")
+  | ["patched", bs, ks, r] =>
+    match bs.toNat?, ks.toNat? with
+    | some b, some k =>
+      let x := t.s.batch b
+      match x.todo with
+      | (k', post) :: _ =>
+        if k' != k then (t, s!"bad patched: batch {b} patches r{k}, the model's next key is r{k'}") else
+        let want := expectResult t x k post
+        match tfire t (.patch b) with
+        | some t' => if want == r then (t', "ok") else (t', s!"bad patched: r{k} → {r}, the model's four-cell rule gives {want} (budget {x.budget})")
+        | none => (t, "bad patched: not a step (the batch does not hold capMu / has not counted)")
+      | [] => (t, s!"bad patched: batch {b} has no patch left in the model")
+    | _, _ => (t, "bad-op")
+  | ["unlock", bs] =>
+    match bs.toNat?.bind (fun b => tfire t (.unlock b)) with
+    | some t' => (t', "ok")
+    | none => (t, "bad unlock: the batch has patches left / never locked")
+  | ["xsubmit", _, _] => (t, "ok")
+  | ["xlock", bs] =>
+    match bs.toNat? with
+    | none => (t, "bad-op")
+    | some b =>
+      if t.s.capMu.isSome || t.xheld.isSome then (t, s!"bad xlock: PatchExpired call {b} holds capMu while another batch holds it")
+      else ({ t with xheld := some b }, "ok")
+  | "xkeys" :: bs :: ks =>
+    match bs.toNat?, ks.mapM (·.toNat?) with
+    | some b, some ks =>
+      if t.xheld != some b then (t, "bad xkeys: the call does not hold capMu") else
+      match tfireAll { t with xheld := none } [.submitExpired b ks, .first b, .second b] with
+      | none => (t, "bad xkeys: not a step")
+      | some t1 =>
+        let kept := (t1.s.batch b).todo.map (·.1)
+        if kept != ks then
+          (t1, s!"bad xkeys: {ks.length} records selected, the budget allows {(t1.s.batch b).budget} (max {t1.s.max}, matching {matching t.s})")
+        else
+          -- the per-record patches run before capMu is released; nothing else can interleave
+          match tfireAll t1 (List.replicate ks.length (.patch b)) with
+          | some t2 => ({ t2 with xdone := b :: t2.xdone }, "ok")
+          | none => (t1, "bad xkeys: patches")
+    | _, _ => (t, "bad-op")
+  | ["xunlock", bs] =>
+    match bs.toNat? with
+    | none => (t, "bad-op")
+    | some b =>
+      if t.xdone.contains b then
+        match tfire t (.unlock b) with
+        | some t' => ({ t' with xdone := t'.xdone.erase b }, "ok")
+        | none => (t, "bad xunlock")
+      else if t.xheld == some b then ({ t with xheld := none }, "ok")   -- nothing was selected
+      else (t, "bad xunlock: the call does not hold capMu")
+  | ["dpre", ks] =>
+    match ks.toNat? with
+    | some k => ({ t with openDel := k :: t.openDel }, "ok")
+    | none => (t, "bad-op")
+  | ["dpost", ks] =>
+    match ks.toNat? with
+    | none => (t, "bad-op")
+    | some k =>
+      if t.early.contains k then ({ t with early := t.early.erase k }, "ok") else
+      let t0 := { t with openDel := t.openDel.erase k }
+      -- a count saw one delete in flight and the model guessed another key: swap the guess
+      let t0 := match t0.early with
+        | k' :: rest =>
+          if t0.s.recs.getD k false then
+            { t0 with early := rest, openDel := k' :: t0.openDel,
+                      s := { t0.s with recs := t0.s.recs.set k' true, present := t0.s.present.set k' true } }
+          else t0
+        | [] => t0
+      match tfire t0 (.delete k) with
+      | some t' => (t', "ok")
+      | none => (t, "bad dpost")
+  | "shift" :: ks =>
+    match ks.mapM (·.toNat?) with
+    | some ks =>
+      match tfireAll t (ks.map .delete) with
+      | some t' => (t', "ok")
+      | none => (t, "bad shift")
+    | none => (t, "bad-op")
+  | ["quiet", ms] =>
+    if some (matching t.s) == ms.toNat? then (t, "ok")
+    else (t, s!"bad quiet: {ms} records match, model {matching t.s}")
+  | ["hang"] => (t, "bad hang: an RPC never returned")
+  | _ => (t, "bad-op")
+
 def run (args : List String) : IO UInt32 := do
   let kv := parseArgs args
+  if arg kv "mode" == "trace" then
+    lineLoop tstep { cfg := { countAfterLock := arg kv "countAfterLock" == "yes", createPreFalse := arg kv "createPreFalse" != "no",
+                              expiredHoldsCapMu := arg kv "expiredHoldsCapMu" != "no", expiredCountsAll := arg kv "expiredCountsAll" == "yes" } }
+    return 0
   lineLoop stepLine { cfg := { countAfterLock := arg kv "countAfterLock" == "yes", createPreFalse := arg kv "createPreFalse" != "no",
-                                expiredHoldsCapMu := arg kv "expiredHoldsCapMu" != "no" } }
+                                expiredHoldsCapMu := arg kv "expiredHoldsCapMu" != "no", expiredCountsAll := arg kv "expiredCountsAll" == "yes" } }
   return 0
 
 end Driver.C12
